@@ -47,6 +47,7 @@ def run(tier, seed, scale):
     chk.require(n(10) > 5000, "fewer than 5000 steals observed")
     chk.require(n(201) > 500, "check_being_stolen fired (stolen task raised its depth) fewer than 500 times")
     chk.require(n(202) > 50, "demand-driven splits (peer stolen) observed fewer than 50 times")
+    chk.require(n(197) > 200, "the circular range pool of the auto/affinity partitioner wrapped around fewer than 200 times (one task has to answer ~7 steal demands in a row)")
     for p in ("simple", "auto", "static", "affinity", "default"):
         chk.require(st.get("part_%s_multithread" % p, 0) > 1000, "partitioner %s: fewer than 1000 loops ran on >= 2 threads" % p)
     for c in ("R", "T", "N", "S", "E", "I", "nest"):
@@ -60,6 +61,7 @@ def run(tier, seed, scale):
         "offer_work_splits": n(200),
         "stolen_task_raised_depth(check_being_stolen)": n(201),
         "demand_splits(peer_stolen)": n(202),
+        "range_pool_wrap_arounds(one task answered >= 7 steal demands in a row)": n(197),
         "steals": n(10),
         "fold_tree_decrements": n(43),
         "loops_on_2plus_threads_by_partitioner": {p: st.get("part_%s_multithread" % p, 0) for p in ("simple", "auto", "static", "affinity", "default")},
